@@ -4,6 +4,7 @@ package main
 // real RocksDB, gRPC state transfer) with the symbolic hasher and the gated store.
 
 import (
+	"sort"
 	"crypto/sha256"
 	"encoding/json"
 	"flag"
@@ -119,42 +120,84 @@ func (c *cl) freshDigest() []byte {
 
 // add sends a bulk to the leader and records the acknowledgement.
 func (c *cl) add(bulk [][]byte, single bool) bool {
+	r := c.doAdd(bulk, single)
+	if r == nil {
+		return false
+	}
+	return c.emitAck(r, false)
+}
+
+type addRes struct {
+	leader int
+	bulk   [][]byte
+	snaps  []*balloon.Snapshot
+	err    error
+	pan    bool
+	msg    string
+}
+
+// doAdd performs the insertion on the leader without recording anything (concurrent writers
+// record their acknowledgements afterwards, ordered by the versions they were given)
+func (c *cl) doAdd(bulk [][]byte, single bool) *addRes {
 	l := c.leader()
 	if l == nil {
 		c.emit(trace.Ev{"a": "noleader"})
-		return false
+		return nil
 	}
 	evs := make([][]byte, len(bulk))
-	bl := make([]interface{}, len(bulk))
 	for i, d := range bulk {
 		evs[i] = symhash.EventFor(d)
-		bl[i] = hx(d)
 	}
-	var snaps []*balloon.Snapshot
-	var err error
-	pan, msg := guard(func() {
+	r := &addRes{leader: l.ID, bulk: bulk}
+	r.pan, r.msg = guard(func() {
 		if single && len(bulk) == 1 {
 			var s *balloon.Snapshot
-			s, err = l.Raft.Add(evs[0])
-			if err == nil {
-				snaps = []*balloon.Snapshot{s}
+			s, r.err = l.Raft.Add(evs[0])
+			if r.err == nil {
+				r.snaps = []*balloon.Snapshot{s}
 			}
 		} else {
-			snaps, err = l.Raft.AddBulk(evs)
+			r.snaps, r.err = l.Raft.AddBulk(evs)
 		}
 	})
-	ev := trace.Ev{"a": "ack", "n": l.ID, "bulk": bl, "err": err != nil || pan}
-	if pan {
-		ev["panic"] = truncate(msg, 160)
+	return r
+}
+
+// emitAck records an acknowledgement. big: the event carries every returned version and event
+// digest but only a sample of the snapshots' tree digests (first, last, two others)
+func (c *cl) emitAck(r *addRes, big bool) bool {
+	bl := make([]interface{}, len(r.bulk))
+	for i, d := range r.bulk {
+		bl[i] = hx(d)
 	}
-	if err != nil {
-		ev["errmsg"] = truncate(err.Error(), 160)
+	ev := trace.Ev{"a": "ack", "n": r.leader, "bulk": bl, "err": r.err != nil || r.pan}
+	if big {
+		ev["a"] = "ackbig"
+	}
+	if r.pan {
+		ev["panic"] = truncate(r.msg, 160)
+	}
+	if r.err != nil {
+		ev["errmsg"] = truncate(r.err.Error(), 160)
 	}
 	sl := []interface{}{}
+	vs, es := []interface{}{}, []interface{}{}
 	c.mu.Lock()
 	defer c.mu.Unlock()
-	for _, s := range snaps {
-		sl = append(sl, trace.Ev{"v": s.Version, "e": hx(s.EventDigest), "hist": c.enc.Enc(s.HistoryDigest), "hyper": c.enc.Enc(s.HyperDigest)})
+	pick := map[int]bool{0: true, len(r.snaps) - 1: true}
+	if big && len(r.snaps) > 3 {
+		pick[1+c.rng.Intn(len(r.snaps)-2)] = true
+		pick[len(r.snaps)/2] = true
+		if len(r.snaps) > 257 {
+			pick[255], pick[256] = true, true
+		}
+	}
+	for i, s := range r.snaps {
+		if !big || pick[i] {
+			sl = append(sl, trace.Ev{"i": i + 1, "v": s.Version, "e": hx(s.EventDigest), "hist": c.enc.Enc(s.HistoryDigest), "hyper": c.enc.Enc(s.HyperDigest)})
+		}
+		vs = append(vs, s.Version)
+		es = append(es, hx(s.EventDigest))
 		c.snaps[s.Version] = s
 		for uint64(len(c.log)) <= s.Version {
 			c.log = append(c.log, nil)
@@ -162,8 +205,11 @@ func (c *cl) add(bulk [][]byte, single bool) bool {
 		c.log[s.Version] = s.EventDigest
 	}
 	ev["snaps"] = sl
+	if big {
+		ev["vs"], ev["es"] = vs, es
+	}
 	c.emit(ev)
-	return err == nil && !pan
+	return r.err == nil && !r.pan
 }
 
 // quiesce waits until every running node has applied what the most advanced one has.
@@ -325,7 +371,7 @@ func (c *cl) incrFinish(ev trace.Ev, proof *balloon.IncrementalProof, s, e uint6
 	if oks && oke {
 		var v bool
 		guard(func() {
-			v = protocol.ToIncrementalProof(&back, symhash.New).Verify(&balloon.Snapshot{HistoryDigest: ss.HistoryDigest}, &balloon.Snapshot{HistoryDigest: se.HistoryDigest})
+			v = protocol.ToIncrementalProof(&back, symhash.New).Verify(ss, se)
 		})
 		ev["v_wire"] = v
 	}
@@ -498,7 +544,7 @@ func (c *cl) quiesceMaybe() {
 }
 
 // ---- scenario: follower (returning or new) restored by state transfer (C09)
-func (c *cl) scenarioRestore(newNode bool, changeLeader bool, one bool) error {
+func (c *cl) scenarioRestore(newNode bool, changeLeader bool, one bool, hist, away string) error {
 	// start 2 nodes (new-node case) or 3
 	if err := c.startNode(1, true, nil); err != nil {
 		return err
@@ -515,10 +561,16 @@ func (c *cl) scenarioRestore(newNode bool, changeLeader bool, one bool) error {
 			return err
 		}
 		qcluster.WaitFor(10*time.Second, func() bool { return len(c.nodes[0].Raft.ClusterInfo().Nodes) == 3 })
-		// some history the follower has seen
-		for i := 0; i < c.rng.Intn(4) && !one; i++ {
-			b, s := c.randBulk()
-			c.add(b, s)
+		// the history the follower has seen before it goes away: nothing, exactly one event, or a few bulks
+		switch {
+		case one || hist == "none":
+		case hist == "single":
+			c.add([][]byte{c.freshDigest()}, c.rng.Intn(2) == 0)
+		default:
+			for i := 0; i < 1+c.rng.Intn(3); i++ {
+				b, s := c.randBulk()
+				c.add(b, s)
+			}
 		}
 		c.quiesce()
 		c.stopNode(3)
@@ -529,7 +581,18 @@ func (c *cl) scenarioRestore(newNode bool, changeLeader bool, one bool) error {
 			c.add([][]byte{c.freshDigest()}, c.rng.Intn(2) == 0)
 		}
 	} else {
-		for i := 0; i < 1+c.rng.Intn(5); i++ {
+		// the first insertion the follower misses is a single event or a bulk of several (the
+		// state transfer resumes exactly there), then anything
+		if away == "single" {
+			c.add([][]byte{c.freshDigest()}, c.rng.Intn(2) == 0)
+		} else {
+			b := [][]byte{}
+			for i := 0; i < 2+c.rng.Intn(3); i++ {
+				b = append(b, c.freshDigest())
+			}
+			c.add(b, false)
+		}
+		for i := 0; i < c.rng.Intn(4); i++ {
 			b, s := c.randBulk()
 			c.add(b, s)
 		}
@@ -585,6 +648,92 @@ func (c *cl) scenarioRestore(newNode bool, changeLeader bool, one bool) error {
 		c.add(b, s)
 	}
 	c.checkAll(false)
+	return nil
+}
+
+// ---- scenario: concurrent writers (C05): one client sends a large bulk (around and beyond 256
+// events) while others insert single events and small bulks; every call must get consecutive
+// versions in request order, whatever is committed in between. Acknowledgements are recorded
+// after the round, ordered by the versions they name.
+func (c *cl) scenarioWriters(rounds int) error {
+	if err := c.boot(); err != nil {
+		return err
+	}
+	sizes := []int{257, 256, 300 + c.rng.Intn(300), 255, 513 + c.rng.Intn(100)}
+	for r := 0; r < rounds; r++ {
+		n := sizes[r%len(sizes)]
+		big := make([][]byte, n)
+		for i := range big {
+			big[i] = c.freshDigest()
+		}
+		small := [][][]byte{}
+		for w := 0; w < 3; w++ {
+			for k := 0; k < 4; k++ {
+				b, _ := c.randBulk()
+				small = append(small, b)
+			}
+		}
+		var mu sync.Mutex
+		res := []*addRes{}
+		var wg sync.WaitGroup
+		start := make(chan struct{})
+		put := func(r *addRes) {
+			if r != nil {
+				mu.Lock()
+				res = append(res, r)
+				mu.Unlock()
+			}
+		}
+		wg.Add(1)
+		go func() { defer wg.Done(); <-start; put(c.doAdd(big, false)) }()
+		for w := 0; w < 3; w++ {
+			w := w
+			wg.Add(1)
+			go func() {
+				defer wg.Done()
+				<-start
+				for k := 0; k < 4; k++ {
+					b := small[w*4+k]
+					put(c.doAdd(b, len(b) == 1 && k%2 == 0))
+				}
+			}()
+		}
+		close(start)
+		wg.Wait()
+		first := func(r *addRes) uint64 {
+			if len(r.snaps) > 0 {
+				return r.snaps[0].Version
+			}
+			return ^uint64(0)
+		}
+		sort.SliceStable(res, func(i, j int) bool { return first(res[i]) < first(res[j]) })
+		c.emit(trace.Ev{"a": "info", "what": fmt.Sprintf("concurrent writers: one bulk of %d, 12 small insertions", n)})
+		for _, r := range res {
+			c.emitAck(r, len(r.bulk) > 16)
+		}
+		// light check (unfolding the tree terms of a log of this size is what costs in TLC):
+		// whole-store dumps of every replica, two membership proofs and one consistency proof
+		// from a follower
+		c.quiesce()
+		for _, nd := range c.nodes {
+			if nd.Up {
+				c.dump(nd.ID)
+			}
+		}
+		if fs := c.followers(); len(fs) > 0 && len(c.log) > 0 {
+			nlog := uint64(len(c.log))
+			f := fs[c.rng.Intn(len(fs))]
+			if d := c.log[nlog-1]; d != nil {
+				c.member(f.ID, d, nlog-1, true)
+			}
+			i := uint64(c.rng.Int63n(int64(nlog)))
+			if d := c.log[i]; d != nil {
+				c.member(f.ID, d, i+uint64(c.rng.Int63n(int64(nlog-i))), false)
+			}
+			e := uint64(c.rng.Int63n(int64(nlog)))
+			c.incr(f.ID, uint64(c.rng.Int63n(int64(e+1))), e)
+		}
+	}
 	return nil
 }
 
@@ -929,7 +1078,14 @@ func clusterDriver(args []string) error {
 			return err
 		}
 		enc := symhash.NewEncoder(symhash.Global, func(def symhash.Term) { dw.Emit(def) })
-		u := makeUniverse(rng, 14+40)
+		usize := 14 + 40
+		if *scen == "writers" {
+			usize = 14 + 1200
+			if thorough {
+				usize = 14 + 3200
+			}
+		}
+		u := makeUniverse(rng, usize)
 		keys := trace.Ev{}
 		for _, k := range u {
 			keys[hx(k)] = bitsOf(k)
@@ -938,6 +1094,12 @@ func clusterDriver(args []string) error {
 		runs := 1
 		if thorough {
 			runs = 3
+		}
+		if *scen == "restore" {
+			runs = 2
+			if thorough {
+				runs = 5
+			}
 		}
 		for run := 0; run < runs; run++ {
 			dir, _ := ioutil.TempDir(tmp, "cl")
@@ -960,13 +1122,43 @@ func clusterDriver(args []string) error {
 				}
 				serr = c.scenarioReplicas(rounds)
 			case "restore":
-				serr = c.scenarioRestore((fi+run)%2 == 1, (fi+run)%4 >= 2, (fi+run)%3 == 0)
+				// variants are enumerated, not drawn: (new node | old node with history none/single/several)
+				// x (first missed insertion single/bulk) x (leader change) + the one-event logs
+				type rv struct {
+					newNode, changeLeader, one bool
+					hist, away                 string
+				}
+				table := []rv{
+					{false, false, false, "several", "single"},
+					{true, false, false, "", "bulk"},
+					{false, true, false, "single", "bulk"},
+					{false, false, true, "", ""},
+					{false, false, false, "several", "bulk"},
+					{true, true, false, "", "single"},
+					{false, true, false, "single", "single"},
+					{false, false, false, "none", "single"},
+					{true, false, true, "", ""},
+					{false, true, false, "several", "single"},
+					{false, true, false, "none", "bulk"},
+					{false, false, false, "single", "bulk"},
+					{true, true, true, "", ""},
+					{false, true, false, "several", "bulk"},
+				}
+				v := table[(fi*runs+run+int(*seed))%len(table)]
+				tw.Emit(trace.Ev{"a": "info", "what": fmt.Sprintf("restore variant new=%v leaderchange=%v one=%v hist=%s away=%s", v.newNode, v.changeLeader, v.one, v.hist, v.away)})
+				serr = c.scenarioRestore(v.newNode, v.changeLeader, v.one, v.hist, v.away)
 			case "backup":
 				rounds := 10
 				if thorough {
 					rounds = 30
 				}
 				serr = c.scenarioBackup(rounds)
+			case "writers":
+				rounds := 1
+				if thorough {
+					rounds = 5
+				}
+				serr = c.scenarioWriters(rounds)
 			case "window":
 				rounds := 5
 				if thorough {
